@@ -6,6 +6,9 @@ CONSTANT Kinds = {"tm", "krum"}
 CONSTANT TSeeds = {5001, 5002, 5003}
 CONSTANT ManyM = {26, 33, 40, 48}
 CONSTANT ManySteps = 3
+CONSTANT HistM = {}
+CONSTANT HistLen = 0
+CONSTANT HistPats = {}
 SPECIFICATION Spec
 INVARIANT TypeOK
 INVARIANT RejectIsTerminal
